@@ -189,8 +189,18 @@ func c08Layout(layout string) []progTrack {
 
 // VerifC08 compares decoding with the media data in memory and left on disk (lazy mdat).
 func VerifC08(layout string, largeMdat bool, mdatFirst bool, co64 bool, work int) {
+	// a layout ending in "+e" gets a second, empty (header-only) mdat box at the end of the file:
+	// File.Mdat must stay the non-empty one in both modes
+	extraEmpty := false
+	if len(layout) > 2 && layout[len(layout)-2:] == "+e" {
+		extraEmpty = true
+		layout = layout[:len(layout)-2]
+	}
 	pf := buildProg(c08Layout(layout), largeMdat, mdatFirst, co64)
 	in := pf.bytes
+	if extraEmpty {
+		in = append(append([]byte{}, in...), 0, 0, 0, 8, 'm', 'd', 'a', 't')
+	}
 	vfy.InputLen(len(in))
 	full, err := DecodeFile(bytes.NewReader(in))
 	vfy.Assert(err == nil, "file decodes in memory")
